@@ -225,7 +225,7 @@ def gas_text(rng, n, soln, db):
 
 def ss_text(rng, n, db):
     lines = ["SOLID_SOLUTIONS %d" % n]
-    which = rng.choice(["ideal", "ideal3", "nonideal"])
+    which = rng.choice(["ideal", "ideal3", "nonideal"]) if db != "pitzer.dat" else "ideal3"     # pitzer.dat has no Strontianite
     if which == "ideal":
         lines += [" CaSrCO3", " -comp Calcite %s" % fmt(rng.choice([0, 0.01, 0.1])),
                   " -comp Strontianite %s" % fmt(rng.choice([0, 0.001, 0.01]))]
